@@ -574,25 +574,34 @@ impl SinkWaitingResponse {
         let mut body_length = None;
         let mut drop_headers =
             HashSet::from(["proxy-connection", "keep-alive", "upgrade"].map(|h| h.to_string()));
+        // a field is hop-by-hop wherever it stands relative to the field that makes it so
+        let dechunked = matches!(
+            self.request_version,
+            http::Version::HTTP_2 | http::Version::HTTP_3
+        );
+        for h in response.headers.iter() {
+            if h.name.eq_ignore_ascii_case("connection") {
+                if let Ok(x) = std::str::from_utf8(h.value) {
+                    drop_headers.extend(
+                        x.split(',')
+                            .filter(|x| *x != "close")
+                            .map(|x| x.trim().to_lowercase()),
+                    );
+                }
+            } else if dechunked && h.name.eq_ignore_ascii_case("transfer-encoding") {
+                drop_headers.insert("content-length".to_string());
+                drop_headers.insert("transfer-encoding".to_string());
+            }
+        }
         for h in response.headers {
             match (h.name.to_ascii_lowercase().as_str(), self.request_version) {
-                (x, _) if drop_headers.contains(x) => (),
-                ("connection", _) => {
-                    if let Ok(x) = std::str::from_utf8(h.value) {
-                        drop_headers.extend(
-                            x.split(',')
-                                .filter(|x| *x != "close")
-                                .map(|x| x.trim().to_lowercase()),
-                        );
-                    }
-                }
                 ("transfer-encoding", http::Version::HTTP_2 | http::Version::HTTP_3) => {
                     if h.value == "chunked".as_bytes() {
                         body_length = Some(BodyLength::Chunked);
                     }
-                    drop_headers.insert("content-length".to_string());
-                    drop_headers.insert("transfer-encoding".to_string());
                 }
+                (x, _) if drop_headers.contains(x) => (),
+                ("connection", _) => (),
                 (x, _) => {
                     if body_length.is_none() && x == "content-length" {
                         body_length = Some(BodyLength::Determined(
